@@ -3282,6 +3282,15 @@ impl Typer {
     ) -> Option<Prim> {
         match literal.parse::<f64>() {
             Ok(value) => {
+                // A float32 literal is rounded once, from its text: it fits when that gives a
+                // finite value (the largest float32 is usually written with fewer digits than
+                // its exact value has, and is then a little above it).
+                let rounded = literal.parse::<f32>().ok();
+                if matches!(ty, tast::Ty::TFloat32) && rounded.is_some_and(f32::is_finite) {
+                    return Some(Prim::Float32 {
+                        value: rounded.unwrap_or_default(),
+                    });
+                }
                 self.ensure_float_literal_fits(diagnostics, value, ty);
                 match ty {
                     tast::Ty::TFloat32 => Some(Prim::Float32 {
